@@ -225,15 +225,30 @@ def runState (env : Env) : Nat → Json → Str → Json → Json → Json → N
       match applyPath data ctx (pathArg state "InputPath") with
       | .error pe => fail pe st
       | .ok input =>
-        let pathOk (k : String) : Except PErr Unit :=
-          match fldStr state k with
-          | some p => (applyPath input ctx (some p)).map (fun _ => ())
+        -- `SecondsPath` / `TimestampPath`: a value that is truthy but not a number (resp. not a string)
+        -- makes the arithmetic (resp. the parser) raise: States.Runtime, like a path that matches nothing
+        let secondsOk : Except PErr Unit :=
+          match fldStr state "SecondsPath" with
+          | some p => match applyPath input ctx (some p) with
+            | .error e => .error e
+            | .ok v => if !v.truthy then .ok () else match v with
+              | .num _ => .ok ()
+              | .bool _ => .ok ()
+              | _ => .error .pathMatch
+          | none => .ok ()
+        let timestampOk : Except PErr Unit :=
+          match fldStr state "TimestampPath" with
+          | some p => match applyPath input ctx (some p) with
+            | .error e => .error e
+            | .ok v => if !v.truthy then .ok () else match v with
+              | .str _ => .ok ()
+              | _ => .error .pathMatch
           | none => .ok ()
         let chk : Except PErr Unit :=
           if isTrue (fld state "Seconds") then .ok ()
-          else if isTrue (fld state "SecondsPath") then pathOk "SecondsPath"
+          else if isTrue (fld state "SecondsPath") then secondsOk
           else if isTrue (fld state "Timestamp") then .ok ()
-          else if isTrue (fld state "TimestampPath") then pathOk "TimestampPath"
+          else if isTrue (fld state "TimestampPath") then timestampOk
           else .ok ()
         match chk with
         | .error pe => fail pe st
